@@ -1,3 +1,5 @@
+//go:build test && verif
+
 package suites
 
 // C17, server side (suite "serverlist"): sequences of POST /api/v1/authorized-servers
